@@ -2,7 +2,7 @@
    Only statements; proofs are in Proofs/ResP*.v and Proofs/WorkerP*.v. *)
 From Coq Require Import ZArith Bool List.
 Import ListNotations.
-From Verif Require Import Model.Val Model.Res Model.Worker Proofs.ResP Proofs.ResP2 Proofs.WorkerP Proofs.WorkerP2 Proofs.WorkerP3 Proofs.WorkerPR.
+From Verif Require Import Model.Val Model.Res Model.Worker Proofs.ResP Proofs.ResP2 Proofs.WorkerP Proofs.WorkerP2 Proofs.WorkerP3 Proofs.WorkerP4 Proofs.WorkerPR.
 Open Scope Z_scope.
 
 (* For every history of allocate / allocate_multiple / deallocate / get_allocated_resources on a
@@ -116,6 +116,29 @@ Print Assumptions C04_worker_demand_is_allocated.
 Theorem C04_worker_demand_le_capacity : forall tbl w n, WInv tbl w -> demand_name w n <= cap_name w n.
 Proof. exact demand_le_capacity. Qed.
 Print Assumptions C04_worker_demand_le_capacity.
+
+(* ---- pools: every state reachable by pool operations whose placements / loads are fresh ---- *)
+Theorem C04_pool_invariant : forall tbl P0 P, PInv tbl P0 -> p_reach tbl P0 P -> PInv tbl P.
+Proof. exact pinv_reach. Qed.
+Print Assumptions C04_pool_invariant.
+Theorem C04_pool_initial : forall tbl id ws, NoDup (map w_id ws) -> Forall (WInv tbl) ws ->
+  Forall (fun W => w_placed W = []) ws -> PInv tbl (p_new id ws).
+Proof. exact pinv_new. Qed.
+Print Assumptions C04_pool_initial.
+(* a placement that is refused (raises) or declined (returns False) changes nothing *)
+Theorem C04_pool_place_refusal : forall tbl t strats es wid P, PInv tbl P -> pop_ok tbl P (PPlace t strats es wid) ->
+  snd (p_place t strats es wid P) <> Ok true -> fst (p_place t strats es wid P) = P.
+Proof. intros tbl t strats es wid P HI Ho. apply (proj2 (pinv_place tbl t strats es wid P HI Ho)). Qed.
+Print Assumptions C04_pool_place_refusal.
+Theorem C04_pool_remove_refusal : forall tbl t P e, PInv tbl P -> snd (p_remove t P) = Err e -> fst (p_remove t P) = P.
+Proof. intros tbl t P e HI. apply (proj2 (pinv_remove tbl t P HI)). Qed.
+Print Assumptions C04_pool_remove_refusal.
+(* C01, pool half: no worker of a reachable pool is oversubscribed; a task is resident on at most one worker *)
+Theorem C04_pool_no_oversubscription : forall tbl P, PInv tbl P ->
+  (forall W n, In W (p_workers P) -> demand_name W n <= cap_name W n) /\
+  (forall t w1 w2, holds (p_workers P) w1 t -> holds (p_workers P) w2 t -> w1 = w2).
+Proof. exact pool_no_oversubscription. Qed.
+Print Assumptions C04_pool_no_oversubscription.
 
 (* ---- what is FALSE without the hypotheses above (same witnesses as corpus/C04, replayed on /repo) ---- *)
 Theorem C04_replace_resident_refuted :
